@@ -854,11 +854,32 @@ func (cs *CodecSet) evalLenCond(c *Codec, recv string, e ast.Expr, L int, ie *st
 				return nil, false
 			}
 			return constant.MakeBool(constant.Compare(x, n.Op, y)), true
-		case token.ADD, token.SUB, token.MUL:
+		case token.ADD, token.SUB, token.MUL, token.REM, token.QUO, token.AND, token.OR, token.XOR:
 			if x.Kind() != constant.Int || y.Kind() != constant.Int {
 				return nil, false
 			}
-			return constant.BinaryOp(x, n.Op, y), true
+			op := n.Op
+			if op == token.QUO {
+				op = token.QUO_ASSIGN // integer division
+			}
+			if (op == token.QUO_ASSIGN || op == token.REM) && constant.Sign(y) == 0 {
+				return nil, false
+			}
+			v := constant.BinaryOp(x, op, y)
+			// wrap-around of fixed-width unsigned arithmetic
+			if tv, ok := cs.info.Types[n]; ok {
+				if b, ok := tv.Type.Underlying().(*types.Basic); ok && b.Info()&types.IsUnsigned != 0 {
+					bits := map[types.BasicKind]uint{types.Uint8: 8, types.Uint16: 16, types.Uint32: 32}[b.Kind()]
+					if bits > 0 {
+						m := constant.Shift(constant.MakeInt64(1), token.SHL, bits)
+						v = constant.BinaryOp(v, token.REM, m)
+						if constant.Sign(v) < 0 {
+							v = constant.BinaryOp(v, token.ADD, m)
+						}
+					}
+				}
+			}
+			return v, true
 		}
 	}
 	return nil, false
